@@ -5,7 +5,7 @@
 import Rtp.Pred.C07
 import Rtp.Proofs.SequencerConc
 namespace Rtp.Proofs.Linearize
-open Rtp Rtp.Model Rtp.Spec.Counter Rtp.Pred.C07 Rtp.Proofs.SequencerConc
+open Rtp Rtp.Model Rtp.Model.SeqConc Rtp.Spec.Counter Rtp.Pred.C07 Rtp.Proofs.SequencerConc
 
 /-! ### `isLinearization` as a proposition, one call at a time -/
 
